@@ -1,14 +1,12 @@
 SPECIFICATION Spec
 CONSTANTS
-  RepGE = FALSE
+  RepGE = TRUE
   RootGuard = TRUE
-  MaxPly = 100
+  MaxPly = 3
   PlyGuard = TRUE
 INVARIANT InvPrefix
 INVARIANT InvSends
 INVARIANT InvRep
 INVARIANT InvScores
-INVARIANT InvExact
-INVARIANT InvRepDraw
-INVARIANT InvMateInOne
+INVARIANT InvNoPanic
 CHECK_DEADLOCK FALSE
